@@ -84,14 +84,20 @@ func (s *Solver) Reset() {
 }
 
 func (s *Solver) declare(t *Term) {
-	var vs []*Term
-	CollectVars(t, s.declared, &vs)
-	for _, v := range vs {
-		if v.W == 0 {
-			s.send("(declare-const |" + v.Name + "| Bool)")
-		} else {
-			s.send(fmt.Sprintf("(declare-const |%s| (_ BitVec %d))", v.Name, v.W))
-		}
+	if s.declared[t.id] {
+		return
+	}
+	s.declared[t.id] = true
+	for _, a := range t.Args {
+		s.declare(a)
+	}
+	switch {
+	case t.Op == OpVar && t.W == 0:
+		s.send("(declare-const |" + t.Name + "| Bool)")
+	case t.Op == OpVar:
+		s.send(fmt.Sprintf("(declare-const |%s| (_ BitVec %d))", t.Name, t.W))
+	case t.Heavy():
+		s.send(t.Definition())
 	}
 }
 
